@@ -1,4 +1,5 @@
 //go:build verif
+
 //verif:dest x/tss/keeper/zz_verif_c11_router.go
 
 package keeper
